@@ -188,7 +188,7 @@ fn run(args: &Args, rep: &mut Report) {
     // exhaustive: 1..3 groups
     let g = REP_GROUPS.len();
     let n = rt::workers();
-    for depth in 1..=tier.pick(3usize, 3) {
+    for depth in 1..=tier.pick(3usize, 4) {
         let total = (g as u64).pow(depth as u32);
         let accs = rt::par(n, |w| {
             let mut acc = Acc::new();
@@ -232,7 +232,7 @@ fn run(args: &Args, rep: &mut Report) {
         rep.add(
             "exhaustive-groups",
             true,
-            &format!("all sequences of 1..=3 groups over {g} representative groups x {{default, non-default base style}}"),
+            &format!("all sequences of 1..=3 (thorough: 4) groups over {g} representative groups x {{default, non-default base style}}"),
             accs,
         );
         if failed {
